@@ -327,6 +327,24 @@ func ruleSetExponentArgs(w *World, r *RuleResult) {
 			}
 		}
 		chk(e)
+		// the constant 1 is the digit count of a receiver that was just set to a one-digit package constant
+		if k, isK := c.Common().Args[ndi].(*ssa.Const); isK && ci(k) == 1 {
+			recv := basePtr(c.Common().Args[0])
+			if seenBefore(c, func(in ssa.Instruction) bool {
+				sc, isCall := in.(*ssa.Call)
+				if !isCall || w.calleeName(sc) != "(*Decimal).Set" || basePtr(sc.Common().Args[0]) != recv {
+					return false
+				}
+				for _, l := range w.newProv(f, nil).roots(sc.Common().Args[1]) {
+					if l.Root.Kind == RGlobalObj && (l.Root.Name == "decimalZero" || l.Root.Name == "decimalOne") {
+						return true
+					}
+				}
+				return false
+			}) && len(w.lastWritersAt(f, c.Common().Args[0], c)) > 0 {
+				ok, why = true, nil
+			}
+		}
 		if ok {
 			r.ok(key, w.instrPos(c), "nd = "+short(e.String(), 120), true)
 		} else {
